@@ -170,17 +170,18 @@ def validate_trace(spec_dir, module, trace_path, cfg=None, timeout=600, env=None
 # ----------------------------------------------------------------------------------------------
 # cargo
 # ----------------------------------------------------------------------------------------------
-def ensure_lock():
+def ensure_lock(ws=None):
     """The harness workspace uses /repo's Cargo.lock as its starting lockfile (offline)."""
-    dst = os.path.join(HARNESS, "Cargo.lock")
+    dst = os.path.join(ws or HARNESS, "Cargo.lock")
     if not os.path.exists(dst):
         shutil.copy(os.path.join(REPO, "Cargo.lock"), dst)
 
 
-def cargo_build(package, bins=None, release=True, timeout=3600, features=None):
+def cargo_build(package, bins=None, release=True, timeout=3600, features=None, workspace="harness"):
     """cargo build --offline -p package in the harness workspace (rebuilds from /repo's tree
     through the path dependencies).  Returns the directory holding the binaries."""
-    ensure_lock()
+    ws = os.path.join(ROOT, workspace)
+    ensure_lock(ws)
     cmd = ["cargo", "build", "--offline", "-p", package]
     if release:
         cmd.append("--release")
@@ -192,14 +193,14 @@ def cargo_build(package, bins=None, release=True, timeout=3600, features=None):
     e["CARGO_NET_OFFLINE"] = "true"
     t0 = time.time()
     try:
-        p = subprocess.run(cmd, cwd=HARNESS, env=e, stdout=subprocess.PIPE, stderr=subprocess.STDOUT,
+        p = subprocess.run(cmd, cwd=ws, env=e, stdout=subprocess.PIPE, stderr=subprocess.STDOUT,
                            text=True, errors="replace", timeout=timeout)
     except subprocess.TimeoutExpired:
         raise ToolError("cargo build timeout: %s" % package)
     if p.returncode != 0:
         raise ToolError("cargo build failed for %s:\n%s" % (package, "\n".join(p.stdout.splitlines()[-60:])))
     log("cargo build %s: %.1fs" % (package, time.time() - t0))
-    return os.path.join(HARNESS, "target", "release" if release else "debug")
+    return os.path.join(ws, "target", "release" if release else "debug")
 
 
 def run_bin(path, args=None, stdin=None, timeout=1800, env=None, cwd=None):
@@ -270,6 +271,8 @@ def verif_state_hash(family):
     _hash_tree(h, os.path.join(ROOT, "lib"), skip=("__pycache__",))
     _hash_tree(h, os.path.join(ROOT, "spec"), skip=("states",))
     _hash_tree(h, HARNESS, skip=("target", "gen"))
+    _hash_tree(h, os.path.join(ROOT, "harness_hydro"), skip=("target", "gen"))
+    _hash_tree(h, os.path.join(ROOT, "known_findings.d"))
     for f in ("check", "known_findings.json"):
         try:
             with open(os.path.join(ROOT, f), "rb") as fh:
@@ -352,11 +355,18 @@ class PropResult:
 
 
 def load_known():
-    p = os.path.join(ROOT, "known_findings.json")
-    if not os.path.exists(p):
-        return {"findings": [], "fixed": []}
-    with open(p) as f:
-        return json.load(f)
+    out = {"findings": [], "fixed": []}
+    paths = [os.path.join(ROOT, "known_findings.json")]
+    dd = os.path.join(ROOT, "known_findings.d")
+    if os.path.isdir(dd):
+        paths += [os.path.join(dd, f) for f in sorted(os.listdir(dd)) if f.endswith(".json")]
+    for p in paths:
+        if os.path.exists(p):
+            with open(p) as f:
+                d = json.load(f)
+            out["findings"] += d.get("findings", [])
+            out["fixed"] += d.get("fixed", [])
+    return out
 
 
 def finish(res, tier, level, wall, design_ref=None):
